@@ -355,6 +355,14 @@ class CallMixin:
     def construct(self, cls, args, kwargs, node, fr):
         if issubclass(cls, BaseException):
             return ExcVal(cls, args)
+        ac = getattr(self.cur_contract, 'abstract_classes', None) or {}
+        key = f'{cls.__module__}:{cls.__qualname__}'
+        if key in ac:
+            # the class is abstracted for this proof: an element of a totally pre-ordered sort, a function of the argument
+            S, fname = ac[key]
+            a0 = self.zs.lift(args[0], STR)
+            self.assumptions.add(f'{cls.__name__}(s) abstracted as {fname}(s) in a total preorder (justified by the order lemmas of the class)')
+            return VAbs(self.ufun(fname, STR, self.zs.zsort(S))(a0), S)
         if cls in (list, tuple, set, frozenset, dict, str, int, bool):
             h = self.special.get(id(cls))
             if h:
